@@ -161,7 +161,9 @@ func c10Packet(o c10Op) stanza.Packet {
 	return m
 }
 
-const c10Req = `<r xmlns="urn:xmpp:sm:3"></r>`
+// c10Canon: written and held stanzas are compared as elements (canon.go), not as bytes: how the library spells a
+// stanza is not part of C10 (that every send writes exactly its serialisation is C08's clause).
+func c10Canon(s string) string { return canonOrRaw(s) }
 
 // observe: (writes since last op as witems, queue) ; concurrent pushes are observed
 // through the queue only (their order is the order in which they were pushed).
@@ -175,17 +177,17 @@ func (c10) Run(inp interface{}) Sx {
 		ws := st.snapshotWrites()
 		var wx []Sx
 		for _, w := range ws[seen:] {
-			if w.Data == c10Req {
+			if isSMRequest([]byte(w.Data)) {
 				wx = append(wx, L(Z(1)))
 			} else {
-				wx = append(wx, L(Z(0), SBytes(w.Data)))
+				wx = append(wx, L(Z(0), SBytes(c10Canon(w.Data))))
 			}
 		}
 		seen = len(ws)
 		var qx []Sx
 		q.RLock()
 		for _, e := range q.Uslice {
-			qx = append(qx, L(Zi(e.Id), SBytes(e.Stz)))
+			qx = append(qx, L(Zi(e.Id), SBytes(c10Canon(e.Stz))))
 		}
 		q.RUnlock()
 		return L(LS(wx), LS(qx))
@@ -301,14 +303,14 @@ func (p c10) InputObs(inp interface{}, obs Sx) Sx {
 		switch o.Op {
 		case "send":
 			data, _ := xml.Marshal(c10Packet(o))
-			ops = append(ops, L(Z(0), Zi(o.Kind), SBytes(string(data))))
+			ops = append(ops, L(Z(0), Zi(o.Kind), SBytes(c10Canon(string(data)))))
 		case "raw":
-			ops = append(ops, L(Z(1), SBytes(o.Body)))
+			ops = append(ops, L(Z(1), SBytes(c10Canon(o.Body))))
 		case "ack":
 			ops = append(ops, L(Z(2), Zi(o.H)))
 		case "peer_r":
 			// no stanza is ever received in these histories: the answer reports h=0
-			ops = append(ops, L(Z(0), Z(2), SBytes(`<a xmlns="urn:xmpp:sm:3" h="0"></a>`)))
+			ops = append(ops, L(Z(0), Z(2), SBytes(c10Canon(`<a xmlns="urn:xmpp:sm:3" h="0"></a>`))))
 		}
 	}
 	if len(in.Stall) > 0 {
@@ -383,18 +385,18 @@ func (c10) Oracle(inp interface{}, obs Sx) (string, string) {
 		case "send":
 			data, _ := xml.Marshal(c10Packet(o))
 			if o.Kind == 0 {
-				sent = append(sent, string(data))
+				sent = append(sent, c10Canon(string(data)))
 			}
 			if o.Kind == 1 {
 				wantWire = []string{"\x00R"}
 			} else {
-				wantWire = []string{string(data)}
+				wantWire = []string{c10Canon(string(data))}
 			}
 		case "raw":
-			sent = append(sent, o.Body)
-			wantWire = []string{o.Body}
+			sent = append(sent, c10Canon(o.Body))
+			wantWire = []string{c10Canon(o.Body)}
 		case "peer_r":
-			wantWire = []string{`<a xmlns="urn:xmpp:sm:3" h="0"></a>`}
+			wantWire = []string{c10Canon(`<a xmlns="urn:xmpp:sm:3" h="0"></a>`)}
 		case "ack":
 			h := o.H
 			if h > len(sent) {
